@@ -14,9 +14,9 @@ def diff_jobs(profile, quick, thorough, corpus_prop):
         {"family": f"diff-{profile}", "flavour": "release", "cases": {"quick": quick, "thorough": thorough}},
         {"family": f"diff-{profile}", "flavour": "debug", "cases": {"quick": quick // 6, "thorough": thorough // 8},
          "args": {"stream": "debug"}},
-        {"family": "corpus", "flavour": "debug", "cases": {"quick": 1000, "thorough": 1000},
+        {"family": "corpus", "flavour": "debug", "cases": {"quick": 0, "thorough": 0},
          "args": {"prop": corpus_prop}, "shards": 1},
-        {"family": "corpus", "flavour": "release", "cases": {"quick": 1000, "thorough": 1000},
+        {"family": "corpus", "flavour": "release", "cases": {"quick": 0, "thorough": 0},
          "args": {"prop": corpus_prop, "stream": "rel"}, "shards": 1},
     ]
 
@@ -28,7 +28,7 @@ PROPS = {
                 "(thorough) input vectors mixing boundary and random words; a case is non-trivial if at least one input "
                 "ran to completion in both the interpreter and the JIT and produced host-call events; distinct = distinct "
                 "source text",
-        "jobs": diff_jobs("scalar", 12000, 400000, "C01"),
+        "jobs": diff_jobs("scalar", 60000, 1500000, "C01"),
         "assumptions": DIFF_ASSUME,
         "min_tags": 120,
         "budget": {"quick": 200, "thorough": 1500},
@@ -37,7 +37,7 @@ PROPS = {
         "rule": "rotogen 'aggregate' profile: programs declaring 0-5 record/enum types (generic, nested, anonymous; random "
                 "field orders over all scalar widths, String, List, Option, Trk) that copy, mutate, compare, match and emit "
                 "every leaf field through out_* after mutations; non-trivial/distinct as for C01",
-        "jobs": diff_jobs("aggregate", 8000, 250000, "C02"),
+        "jobs": diff_jobs("aggregate", 40000, 1000000, "C02"),
         "assumptions": DIFF_ASSUME,
         "min_tags": 100,
         "budget": {"quick": 200, "thorough": 1500},
@@ -47,7 +47,7 @@ PROPS = {
                 "(24-byte Trk), strings and lists in every construct; the ledger checks each instance id is dropped exactly "
                 "once and the allocation balance returns to zero after the call; non-trivial = ran and produced clone/drop "
                 "or host events",
-        "jobs": diff_jobs("ownership", 8000, 250000, "C03"),
+        "jobs": diff_jobs("ownership", 40000, 1000000, "C03"),
         "assumptions": DIFF_ASSUME + ["known-defect patterns (see KNOWN_FINDINGS.txt) are kept out of the random stream; "
                                       "their witnesses in corpus/ run in every check"],
         "min_tags": 90,
@@ -57,7 +57,7 @@ PROPS = {
         "rule": "rotogen 'effects' profile: 70% of leaves are logged host calls, so evaluation order and multiplicity of "
                 "every operand, argument, field, element, f-string part, condition, guard and scrutinee is visible in the "
                 "ordered host-call log, which is compared with the interpreter's log",
-        "jobs": diff_jobs("effects", 8000, 250000, "C08"),
+        "jobs": diff_jobs("effects", 40000, 1000000, "C08"),
         "assumptions": DIFF_ASSUME,
         "min_tags": 100,
         "budget": {"quick": 200, "thorough": 1500},
